@@ -2,3 +2,7 @@ import TJ.Impl.Basic
 import TJ.Impl.Aead
 import TJ.Impl.Hash
 import TJ.Impl.Prng
+import TJ.Props.C01
+import TJ.Props.C03
+import TJ.Props.C04
+import TJ.Props.C08
